@@ -22,6 +22,11 @@ NA = {
 }
 
 CHECKS = {
+ 'C12': dict(
+   text='Seeded fault injection into the stateful importer: 0-4 cells of a generated document are replaced by malformed text (strict family that the lexer/parser must hit; lexable-tail family that is classified), placement biased to rows after *^/*v, sub-spines, barline rows, adjacent cells, last rows, second **kern spines and non-kern spines, optionally after blank lines; oracles: loads returns, exactly one error per malformed **kern/**root cell with the physical line number, every other token equal to the undamaged import, kern and eKern exports equal the undamaged export with exactly the damaged cells replaced, and a re-import of the clean text in the same process is unaffected. History runs feed one long-lived importer of every class <=40 valid/malformed tokens in two orders and compare each outcome with a fresh importer. Exploration: the placement/history space is sampled, not enumerated.',
+   note='Trusted: kernpy on the undamaged text as the reference path (a consistently wrong import is invisible: that is C01-C03); the strict-family vocabulary really is unparseable (justified from the lexer alphabet and grammar, probed on the tree); the exporter drops rows whose exported cells are all placeholders. Two genuine defects are listed as known findings (prefix-accepted, separator-stripped) with matchers tied to the injected fault family and the exact observed shape.',
+   technique='deterministic simulation: seeded corrupted-cell fault plans + token histories on long-lived importers vs undamaged reference run, ddmin-minimised replay',
+   design='4.1', engine='sim-import'),
  'C16': dict(
    text='Seeded search over call histories (8-30 operations) on ONE shared importer, ONE shared exporter and a pool of reused pitch objects, against an independent (letter, alteration, octave) <-> spelling model, with the invariant "every pool object still equals its model" after every operation; the 539-spelling grid is visited completely by every 539 consecutive runs (quick = 12 sweeps, thorough = 400). Faults: invalid spellings/arguments between valid calls and exports interrupted at a seeded line event. Exploration is the right level: the grid is finite and covered, the interleavings over shared objects are sampled.',
    note='Trusted: the Humdrum spelling rule as written in simkit-free model code in checks/c16.py; sys.monitoring delivering LINE events; objects returned by to_transposed are modelled by the same call on a fresh equal object.',
